@@ -46,6 +46,9 @@ class Tr:
             return "(n_%s l)" % f
         if isinstance(n, ast.Name) and n.id in self.env:
             return self.env[n.id]
+        if isinstance(n, ast.Subscript) and isinstance(n.value, ast.Name) and n.value.id == "previous_state_rep" \
+                and isinstance(n.slice, ast.Constant) and n.slice.value in (0, 1):
+            return "p" if n.slice.value == 0 else "b"
         if isinstance(n, ast.Attribute):
             f = fld(n)
             if f == "capacity":
@@ -72,6 +75,10 @@ class Tr:
                 return "(n_%s l =? 0)" % self._listfield(n.operand)
             except Unsupported:
                 return "(negb %s)" % self.b(n.operand)
+        if isinstance(n, ast.Compare) and len(n.ops) == 1 and isinstance(n.ops[0], ast.Eq) and isinstance(n.left, ast.Name) \
+                and n.left.id == "previous_state_rep" and isinstance(n.comparators[0], ast.Tuple) and len(n.comparators[0].elts) == 2:
+            a, c = n.comparators[0].elts
+            return "((p =? %s) && (b =? %s))" % (self.z(a), self.z(c))
         if isinstance(n, ast.Compare) and len(n.ops) == 1:
             ops = {ast.Lt: "<?", ast.LtE: "<=?", ast.Gt: ">?", ast.GtE: ">=?", ast.Eq: "=?"}
             a, c = self.z(n.left), self.z(n.comparators[0])
@@ -179,6 +186,25 @@ frag("round_robin_next", "utils/utils.py",
      lambda t: Tr(env={"i": "i", "edges": None}).z(_rr(t)), "((i + 1) mod n_edges)", kind="rr")
 
 
+def state_rep_cond(tree, state):
+    """the test of the `if` in Machine.update_state_rep whose body charges the elapsed time to [state]"""
+    fn = find(tree, "Machine", "update_state_rep")
+    for n in ast.walk(fn):
+        if isinstance(n, ast.If):
+            for st in n.body:
+                if isinstance(st, ast.AugAssign) and isinstance(st.op, ast.Add) and state in ast.unparse(st.target) \
+                        and "total_time_spent_in_states" in ast.unparse(st.target):
+                    return n.test
+    raise Unsupported("no branch for " + state)
+
+
+MACHINE_STATES = {"IDLE_STATE": "((p =? 0) && (b =? 0))", "ALL_ACTIVE_BLOCKED_STATE": "((b >? 0) && (p =? 0))",
+                  "ATLEAST_ONE_PROCESSING_STATE": "(p >? 0)", "ALL_ACTIVE_PROCESSING_STATE": "((p >? 0) && (b =? 0))",
+                  "ATLEAST_ONE_BLOCKED_STATE": "(b >? 0)"}
+for st_, fb in MACHINE_STATES.items():
+    frag("Machine_cond_%s" % st_, "nodes/machine.py", lambda t, s_=st_: Tr().b(state_rep_cond(t, s_)), fb, kind="pb")
+
+
 def _rr(t):
     e = rr_update(find(t, None, "RoundRobin_edge_selector"))
     # len(edges) -> n_edges
@@ -216,6 +242,8 @@ def main():
             status, why, text = "fallback", "%s: %s" % (type(ex).__name__, ex), fr["fallback"]
         if fr["kind"] == "rr":
             out.append("Definition %s (i n_edges : Z) : Z := %s." % (fr["name"], text))
+        elif fr["kind"] == "pb":
+            out.append("Definition %s (p b : Z) : bool := %s." % (fr["name"], text))
         else:
             out.append("Definition %s (l : lens) : %s := %s." % (fr["name"], "Z" if fr["kind"] == "Z" else "bool", text))
         report[fr["name"]] = dict(status=status, source=fr["file"], gallina=text, why=why)
